@@ -28,7 +28,7 @@ Fixpoint first_nonempty (l : list str) : str :=
 (* ---- quoting (RFC 9110 5.6.4) ------------------------------------------ *)
 Definition dq : N := 34.
 Definition starts_dq (v : str) : bool := match v with x :: _ => x =? dq | [] => false end.
-Definition ends_dq (v : str) : bool := match rev v with x :: _ => x =? dq | [] => false end.
+Definition ends_dq (v : str) : bool := match last_opt v with Some x => x =? dq | None => false end.
 (* a value that begins or ends with DQUOTE but is not a quoted-string *)
 Definition bad_quoting (v : str) : bool := (starts_dq v || ends_dq v) && negb (matches quoted_string v).
 
@@ -47,9 +47,19 @@ Fixpoint take_until (c : N) (s : str) : str :=
   match s with [] => [] | x :: s' => if x =? c then [] else x :: take_until c s' end.
 Fixpoint drop_through (c : N) (s : str) : str :=
   match s with [] => [] | x :: s' => if x =? c then s' else drop_through c s' end.
-Definition after_last (c : N) (s : str) : str := rev (take_until c (rev s)).
-Definition before_last (c : N) (s : str) : str := rev (drop_through c (rev s)).
-Definition ends_with_char (c : N) (s : str) : bool := match rev s with x :: _ => x =? c | [] => false end.
+(* split at the last occurrence of c *)
+Fixpoint split_last (c : N) (s : str) : option (str * str) :=
+  match s with
+  | [] => None
+  | x :: s' =>
+    match split_last c s' with
+    | Some (a, b) => Some (x :: a, b)
+    | None => if x =? c then Some ([], s') else None
+    end
+  end.
+Definition before_last (c : N) (s : str) : str := match split_last c s with Some (a, _) => a | None => s end.
+Definition after_last (c : N) (s : str) : str := match split_last c s with Some (_, b) => b | None => [] end.
+Definition ends_with_char (c : N) (s : str) : bool := match last_opt s with Some x => x =? c | None => false end.
 
 (* "addr:port" unless the text ends with "]" (a bracketed IPv6 literal without port) *)
 Definition has_port (s : str) : bool := memb colon s && negb (ends_with_char rbr s).
